@@ -482,6 +482,13 @@ def state_contradiction(fs, new_facts, immut=None):
             rr = roots_read(m)
             if not (rr and rr <= immut and not any(x and x[0] in ('local', 'call', 'rec', 'phi') for x in walk(m[1]))):
                 continue
+        if m[0] == 'btrue' and immut is None:
+            # the same boolean place read twice with different outcomes, nothing written in between (state mode)
+            if ('btrue', m[1], not m[2]) in fs:
+                return True
+        elif m[0] == 'cmp' and immut is None:
+            if (m[0], m[1], m[2], m[3], m[4], not m[5]) in fs:
+                return True
         if m[0] == 'variant':
             for f in fs:
                 if f[0] == 'variant' and f[1] == m[1] and f[2] != m[2]:
